@@ -75,6 +75,10 @@ def main(argv):
                 chk.functions[q] = f'missing: {e}'
         chk.assumptions = list(getattr(mod, 'ASSUMPTIONS', []))
         chk.explanation = getattr(mod, 'EXPLANATION', '')
+    from contracts import assumptions as _A
+    expl, extra = _A.for_property(pid)
+    chk.explanation = chk.explanation or expl
+    chk.assumptions = list(chk.assumptions) + [a for a in extra if a not in chk.assumptions]
     try:
         return chk.run()
     except Exception:
